@@ -400,7 +400,7 @@ RULES = [
 
 
 from . import shared
-RULES = RULES + shared.bundle('C05', ['gauss-tables', 'gpu', 'carry', 'gate', 'restart', 'driver', 'values', 'stride', 'centre', 'loops'], ['details', 'weights', 'direct_model'])
+RULES = RULES + shared.bundle('C05', ['tablebounds', 'gauss-tables', 'gpu', 'carry', 'gate', 'restart', 'driver', 'values', 'stride', 'centre', 'loops'], ['details', 'weights', 'direct_model'])
 from .. import refs as _refs
 RULES = RULES + [_refs.ref_rule('C05')]
 
